@@ -739,7 +739,13 @@ class FakeRaw(io.RawIOBase):
         return True
 
     def fileno(self):
-        raise io.UnsupportedOperation('fileno')
+        # a simulated descriptor: os.fsync / os.fstat / os.ftruncate / os.lseek on it stay inside the simulator
+        fd = getattr(self, '_fd', None)
+        if fd is None:
+            fd = self._fd = self._fs._next_fd
+            self._fs._next_fd += 1
+            self._fs._fds[fd] = self
+        return fd
 
     def isatty(self):
         return False
@@ -861,4 +867,6 @@ class FakeRaw(io.RawIOBase):
     def close(self):
         if not self.closed:
             self._fs._emit('close', self._path, len(self._node.data) if hasattr(self, '_node') else None)
+            if getattr(self, '_fd', None) is not None:
+                self._fs._fds.pop(self._fd, None)
         super().close()
